@@ -223,7 +223,13 @@ def _execute(spec, world):
         return res
     with world.step(0, 0, use_fs=False):
         try:
-            obj = gen.build(base)
+            _kept = []
+            obj = gen.build(base, keep=_kept)
+            # hostile caller: the arrays handed to the constructor are the caller's, and the
+            # caller overwrites them right away (the shape must own copies)
+            for _a in _kept:
+                if _a.dtype.kind == "f":
+                    _a += 1.2345 * (1.0 + np.abs(_a))
         except Exception as e:  # noqa: BLE001
             C["base_unbuildable"] += 1
             log.add("base", "unbuildable", type(e).__name__)
